@@ -34,6 +34,28 @@ type wev struct {
 	End   int     `json:"-"` // Write: Seq at which the transport call returned
 }
 
+// MarshalJSON writes exactly the fields of the event's kind (the trace spec reads them unconditionally).
+func (e *wev) MarshalJSON() ([]byte, error) {
+	m := map[string]any{"ev": e.Ev}
+	switch e.Ev {
+	case "Cfg":
+		m["mode"], m["frame"], m["maxq"] = e.Mode, *e.Frame, *e.MaxQ
+	case "EnqB":
+		m["p"], m["items"] = e.P, e.Items
+	case "EnqE":
+		m["p"], m["res"] = e.P, e.Res
+	case "Write":
+		ids := e.Ids
+		if ids == nil {
+			ids = []int{}
+		}
+		m["ids"], m["many"], m["ok"] = ids, *e.Many, *e.Ok
+	case "CloseB":
+		m["flush"] = *e.Flush
+	}
+	return json.Marshal(m)
+}
+
 type wrec struct {
 	mu  sync.Mutex
 	evs []*wev
